@@ -229,6 +229,7 @@ func (s *Store[H]) Get(ctx context.Context, hash header.Hash) (H, error) {
 		return h, nil
 	}
 
+	gen := s.heightIndex.fills.begin()
 	b, err := s.get(ctx, hash)
 	if err != nil {
 		return zero, err
@@ -239,7 +240,7 @@ func (s *Store[H]) Get(ctx context.Context, hash header.Hash) (H, error) {
 		return zero, err
 	}
 
-	s.cache.Add(h.Hash().String(), h)
+	s.heightIndex.fills.fill(gen, func() { s.cache.Add(h.Hash().String(), h) })
 	return h, nil
 }
 
